@@ -16,6 +16,7 @@ OPTIONAL = OPTIONAL_BLOCK + OPTIONAL_INLINE + ["replacements", "smartquotes"]
 QUOTES = [
     "“”‘’", "«»„“", "<>&\"", "\"\"''", "abcd",
     ["«\xa0", "\xa0»", "‹\xa0", "\xa0›"], ["<<", ">>", "&", "\""], ["", "", "", ""], ["\"", "'", "\"'", "'\""], ["a", "bb", "ccc", "dddd"],
+    ['"""', '"""', "'" * 3, "'" * 3], ["<<<", '>""', "<", ">"], ["''", "''", '""', '""'], ["x'", "'x", 'y"', '"y'],
 ]
 LANGPREFIX = ["language-", "", "<\"&>", "l ", "lang\tx-", "é'"]
 
